@@ -490,7 +490,7 @@ package tchannel
 // panics).
 //@ func (r *relayItems) Entomb(id uint32, deleteAfter time.Duration) (item relayItem, ok bool)
 //@   nosafety
-//@   modifies allbut Connection, Relayer, errAttempts, sysErrID, sysErrCode, sysErrMsg, lookupHit
+//@   modifies allbut Connection, Relayer, errAttempts, sysErrID, sysErrCode, sysErrMsg, lookupHit, nends, ndec
 //@   property C20
 //@ func (r *relayItems) Get(id uint32, stopTimeout bool) (item relayItem, stopped bool, found bool)
 //@   nosafety
